@@ -44,6 +44,24 @@ CLAIMED = {
             'exact / prefix* / *suffix / *infix* match (case-insensitive), and that an aggregate carries all errors with severity error iff a '
             'constituent has it. The real RPC._request / RPCReply.parse / is_rpc_error_exempt run on generated replies x modes x pattern sets.',
             NOTE + 'str.lower() modelled for ASCII letters; lxml parsing of the reply is the environment.', 'DESIGN.md 5/C06'),
+    'C07': (T + ': finite operation table (decide +kernel) + escaping lemmas for all strings',
+            'PARTIAL. Proved: over the operation table regenerated from the source by probing execution (every standard and vendor operation x '
+            'argument shape x profile envelope) every sent request is one <rpc> in the base namespace with message-id and exactly the operation '
+            'element the protocol defines, RFC 6241 parameter order, out-of-set enumerated arguments rejected with nothing sent, each caller '
+            'string exactly once in a text/attribute position; for ALL strings: escape/parse round trip of text and attribute values and no '
+            'markup in escaped data. Modelled, not verified: lxml serialisation (compared byte for byte with the library each run).',
+            NOTE + 'parametricity of request builders in their string arguments is sampled (23 templates x nasty strings per run), not proved.', 'DESIGN.md 5/C07'),
+    'C09': (T + ': finite gating table (decide +kernel) + gate semantics for all capability lists',
+            'Proved: over the regenerated operation table the capabilities each call asserts are exactly the documented dependencies, every '
+            'documented dependency was probed with the capability removed and was refused (MissingCapabilityError / WithDefaultsError) with '
+            'nothing sent; for ALL capability lists: the gate refuses iff a required capability is not contained (C08 gives what contained '
+            'means, both URN forms) and the with-defaults mode check accepts iff the mode is the basic or an also-supported mode.',
+            NOTE + 'the catalogue of probed argument shapes is hand-written; random capability subsets x gated calls run on the real code each time.', 'DESIGN.md 5/C09'),
+    'C13': (T + ': bracket theorem by induction over body programs',
+            'Proved for all bodies (requests, raise, sequencing, nested lock contexts), all datastores and all history-dependent servers: lock t, '
+            'then exactly the body\'s requests, then unlock t once, on return and on raise; the body\'s exception propagates; a refused lock runs '
+            'neither body nor unlock; lock/unlock events of any program are well-bracketed. Random programs run as real `with m.locked()` blocks.',
+            NOTE + 'the Python with-statement protocol is a trusted primitive.', 'DESIGN.md 5/C13'),
     'C08': (T + ': grammar spec <-> _abbreviate, dict semantics',
             'Machine-checked proof that, in the model of capabilities.py, lookup of an advertised URI succeeds, shorthand lookup succeeds iff the '
             'grammar of RFC capability/base URNs says so (both URN forms), results are the right capability, parameters are exactly the '
